@@ -64,3 +64,33 @@ PROPS["C05"] = {
     "note": "Does not prove equality with a fresh parser for all histories: determinism of the rest (no clock/randomness) is assumed. "
             "Closed world for clikit.*; mutation through reflection/setattr is not modelled.",
 }
+
+SOURCE_COMMITS += ["4e1f807", "c61a457", "b3f9592"]  # C17 fixes: border style copy, leniency restore, snippet cache key
+
+PROPS["C17"] = {
+    "claimed": True,
+    "technique": "static analysis: ownership of memoised objects via interprocedural origin/effect analysis, acquire/release pairing on normal and exceptional CFG exits, cache-key coverage, read-only render, inventory of process-wide containers",
+    "text": (
+        "Decides the named sources of cross-run state: (R1) objects returned by memoising factories (class slot filled under an is-None "
+        "test) are never mutated by receivers nor planted uncopied into another object's field; (R2) a temporary leniency switch is "
+        "switched back (or was already on) on every exit, exceptional edges included; (R3) resolvers/handlers do not edit the caller's "
+        "raw tokens unless the inverse edit is on every exit; (R4) the key of a class-level memo names every input of the memoised "
+        "value; (R5) render() of every Component writes no component state except fields reset before use; (R6) every class-/module-"
+        "level mutable container is either never mutated or only filled as a memo. These are exactly the mechanisms by which an "
+        "earlier run can influence a later one without any single-run test noticing."
+    ),
+    "note": "Run-by-run equality of whole applications is not claimed; only these mechanisms are. User code mutating shared singletons "
+            "(BorderStyle.none() itself) is outside the closed world.",
+}
+
+PROPS["C14"] = {
+    "claimed": True,
+    "technique": "static analysis: interprocedural effect/alias analysis (deep read-only of the table's rows, header and style under render)",
+    "text": (
+        "Decides only the last clause of the property - rendering does not modify the table: no mutation event reachable from "
+        "Table.render touches an object rooted at the table's fields at any alias depth, and the row lists that BorderUtil.draw_row "
+        "splits and pops in place are rooted at the CellWrapper created for this render. The geometric clauses (rectangle, widths, "
+        "text preservation) are arithmetic over runtime lengths and are declined."
+    ),
+    "note": "Rectangle / width / text-preservation clauses are NOT decided (no sound static bound in reach); see DESIGN.md C14.",
+}
